@@ -435,6 +435,7 @@ def _ema_grouped_timed(
     residuals = np.zeros(ngroups, dtype="float64")
     residual_weights = np.zeros(ngroups, dtype="float64")
     last_seen_times = np.zeros(ngroups, dtype="int64")
+    seen = np.zeros(ngroups, dtype="bool")
     last_seen = np.full(ngroups, np.nan, dtype="float64")
 
     masked = mask is not None
@@ -443,7 +444,7 @@ def _ema_grouped_timed(
         if k < 0:  # null keys belong to no group
             out[i] = np.nan
             continue
-        if last_seen_times[k] > 0:
+        if seen[k]:
             hl = (times[i] - last_seen_times[k]) / halflife
             beta = np.exp(-np.log(2) * hl)
             residuals[k] *= beta
@@ -457,6 +458,7 @@ def _ema_grouped_timed(
             residuals[k] += x
 
         last_seen_times[k] = times[i]
+        seen[k] = True
         last_seen[k] = out[i]
 
     return out
